@@ -158,7 +158,11 @@ def _run_readers(case):
 
 def _vals(cmd, dt, n, size):
     base = VAL_FZ if SIG.input_fuzz(cmd) == "fz" else (VAL_INT if dt == "int" else VAL_UINT if dt == "uint" else VAL_NF)
-    return [[base[(i * size + j) % len(base)] for j in range(size)] for i in range(n)]
+    vals = [[base[(i * size + j) % len(base)] for j in range(size)] for i in range(n)]
+    if SIG.input_fuzz(cmd) == "fz" and size >= 2:
+        for i in range(n):
+            vals[i][0] = F(-1)  # one cell in which EVERY input is fully false (the 0/0 corner of the exclusive-or formula): defined, not missing
+    return vals
 
 
 def run(case):
